@@ -22,6 +22,7 @@
 
 #include <cstdint>
 #include <cstring>
+#include <limits>
 
 #include <vector>
 #include <algorithm>
@@ -70,7 +71,14 @@ void EpollLoop::runLoop(Mode mode)
 
     keep_running_ = (mode == Loop::Mode::kForever);
     do {
-        int fds = epoll_wait(epoll_fd_, events.data(), events.size(), getWaitTime());
+        //! epoll_wait() takes its timeout as int: a nearest deadline more than INT_MAX ms (24.8 days)
+        //! away must not wrap into a negative value, which the kernel treats as "wait forever".
+        //! Waking up early with nothing due is harmless, the wait is simply computed again.
+        int64_t wait_ms = getWaitTime();
+        if (wait_ms > std::numeric_limits<int>::max())
+            wait_ms = std::numeric_limits<int>::max();
+
+        int fds = epoll_wait(epoll_fd_, events.data(), events.size(), static_cast<int>(wait_ms));
 
         RECORD_SCOPE();
         beginLoopProcess();
